@@ -3347,6 +3347,9 @@ def gen_all(repo):
             elif spec.get("gal_mode"):          # round 7 (worker V): plan skeletons of the rotation layer (tools/rs2lean_gal.py)
                 import rs2lean_gal
                 res[name] = rs2lean_gal.generate(sys.modules[__name__], tr, spec)
+            elif spec.get("mp_mode"):          # round 7 (worker W): multiparty protocol skeletons (tools/rs2lean_mp.py)
+                import rs2lean_mp
+                res[name] = rs2lean_mp.generate(sys.modules[__name__], tr, spec)
             else: res[name] = ladder_file(tr, spec) if spec.get("ladder") else tr.run_file(spec)
         except (Unsupported, SystemExit) as ex: res[name] = GenFailed(str(ex))
         except Exception as ex: res[name] = GenFailed("translator error: %s: %s" % (type(ex).__name__, ex))
@@ -3920,6 +3923,9 @@ FILES += rs2lean_conc.files(sys.modules[__name__])
 
 import rs2lean_gal as _rs2lean_gal          # round 7 (worker V): Gen/GaloisPlanFns.lean (tables in tools/rs2lean_gal.py)
 FILES += [("GaloisPlanFns.lean", _rs2lean_gal.SPEC)]
+
+import rs2lean_mp as _rs2lean_mp            # round 7 (worker W): Gen/MpFns.lean (tools/rs2lean_mp.py)
+FILES += [("MpFns.lean", _rs2lean_mp.SPEC)]
 
 if __name__ == "__main__":
     res = gen_all(sys.argv[1])
